@@ -403,6 +403,18 @@ def _sg(ck: Checker, prog: Program):
     isym = sp.Symbol("i", integer=True)
     p = sp.Symbol("p", positive=True, integer=True)
     rets = [r for r in own_nodes(f.node) if isinstance(r, ast.Return)]
+    if len(rets) == 1 and isinstance(rets[0].value, ast.Name):
+        # result = helper(...); ...; return result - the name must reach the return untouched
+        nm = rets[0].value.id
+        defs = [st for st in own_nodes(f.node) if isinstance(st, ast.Assign) and len(st.targets) == 1 and isinstance(st.targets[0], ast.Name) and st.targets[0].id == nm]
+        if len(defs) == 1 and isinstance(defs[0].value, ast.Call):
+            touched = [st for st in f.node.body if st is not defs[0] and st is not rets[0]
+                       and any(isinstance(x, ast.Name) and x.id == nm for x in ast.walk(st))]
+            for st in touched:
+                ck.violation("C02.R5", q, norm_key(st),
+                             f"the smoothed spectrum is post-processed before it is returned (`{norm_key(st, 80)}`): no longer the least-squares polynomial value "
+                             f"(linearity and polynomial reproduction are lost)", loc=f.loc(st))
+            rets = [ast.copy_location(ast.Return(value=defs[0].value), defs[0])]
     if len(rets) != 1 or not isinstance(rets[0].value, ast.Call):
         raise AnalysisError(f"{q}: single `return helper(...)` not found")
     ret, call = rets[0], rets[0].value
